@@ -207,7 +207,8 @@ pub open spec fn level(t: Seq<Vec<(R, R)>>, k: int) -> real decreases k + 1 {
 // the change between consecutive levels
 pub open spec fn delta(t: Seq<Vec<(R, R)>>, k: int) -> real { rabs(0.5real * level(t, k - 1) - row_de(t[k]@, t[k]@.len() as int)) }
 pub open spec fn accepted_de(t: Seq<Vec<(R, R)>>, k: int, tol: real, v: real) -> bool {
-    0 <= k < t.len() && v == level(t, k) && (delta(t, k) == 0real || delta(t, k) * delta(t, k) < tol || delta(t, k) < tol)
+    // k >= 2: the two coarsest levels are never accepted (the change between them is not yet an error estimate)
+    2 <= k < t.len() && v == level(t, k) && (delta(t, k) == 0real || delta(t, k) * delta(t, k) < tol || delta(t, k) < tol)
 }
 """)
     T = "table_spec(6)"
@@ -215,7 +216,9 @@ pub open spec fn accepted_de(t: Seq<Vec<(R, R)>>, k: int, tol: real, v: real) ->
     f.attrs = []
     f.opt(continue_to_else=True)
     f.mapfold("mf")
-    f.req("forall|t: R| f_0.requires((t,))", "forall|t: R, y: R| f_0.ensures((t,), y) ==> y@ == F(t@)", f"{T}.len() < 1000 && forall|k: int| 0 <= k < {T}.len() ==> (#[trigger] {T}[k])@.len() < 100000")
+    f.req("forall|t: R| f_0.requires((t,))", "forall|t: R, y: R| f_0.ensures((t,), y) ==> y@ == F(t@)", f"{T}.len() < 1000 && forall|k: int| 0 <= k < {T}.len() ==> (#[trigger] {T}[k])@.len() < 100000",
+          # the two coarsest levels of the table cost at most 13 evaluations (3 + 3 mirrored pairs and the centre): what the routine's own level test counts on
+          f"{T}.len() >= 2 && {T}[0]@.len() + {T}[1]@.len() <= 6")
     f.ens(f"res is Ok ==> exists|k: int| #![trigger level({T}, k)] accepted_de({T}, k, tol@, res->Ok_0@)")
     f.loop(1, iter="it", invariant=[
         "f == f_0", "forall|t: R| f_0.requires((t,))", "forall|t: R, y: R| f_0.ensures((t,), y) ==> y@ == F(t@)",
@@ -223,7 +226,10 @@ pub open spec fn accepted_de(t: Seq<Vec<(R, R)>>, k: int, tol: real, v: real) ->
         f"integral@ == level({T}, it.index@ - 1)", "num_function_evaluations <= 1 + 200000 * it.index@",
         f"it.index@ > 0 ==> current_delta@ == delta({T}, it.index@ - 1)",
         "num_function_evaluations <= 13 ==> error_estimate@ == 1real + tol@",
-        "error_estimate@ == 1real + tol@ || (it.index@ > 0 && (error_estimate@ == current_delta@ || error_estimate@ == current_delta@ * current_delta@ || (error_estimate@ == 0real && current_delta@ == 0real)))",
+        f"{T}.len() >= 2 && {T}[0]@.len() + {T}[1]@.len() <= 6",
+        f"it.index@ == 0 ==> num_function_evaluations == 1", f"it.index@ == 1 ==> num_function_evaluations == 1 + 2 * {T}[0]@.len()",
+        f"it.index@ == 2 ==> num_function_evaluations == 1 + 2 * {T}[0]@.len() + 2 * {T}[1]@.len()",
+        "error_estimate@ == 1real + tol@ || (it.index@ > 2 && (error_estimate@ == current_delta@ || error_estimate@ == current_delta@ * current_delta@ || (error_estimate@ == 0real && current_delta@ == 0real)))",
         f"forall|k: int| 0 <= k < it.history@.len() ==> *it.history@[k] == {T}[k]",
     ], invariant_except_break=[])
     f.loop(2, iter="it2", invariant=[
@@ -338,7 +344,8 @@ fn integrate_core<F: Fn(R) -> R>(f: F, tol: R) -> (r: Result<R, String>)
 
 DECIDED = [
     "integrate_core (tanh-sinh): an Ok result is level k of the double-exponential refinement over the table WEIGHTS_DE (I_(-1) = pi f(0), I_k = I_(k-1)/2 + sum_row w (f(x) + f(-x))) for some k, "
-    "and the change delta_k between the last two levels passed the stopping rule (delta_k = 0, delta_k^2 < tol or delta_k < tol); otherwise Err",
+    "and the change delta_k between the last two levels passed the stopping rule (delta_k = 0, delta_k^2 < tol or delta_k < tol); otherwise Err; "
+    "the accepted level is k >= 2: the two coarsest levels (13 evaluations) are never accepted, whatever their changes look like",
     "integrate_fixed (Romberg, 1 <= n <= 32): left >= right -> Err; otherwise Ok and the value is exactly entry (n, n) of the Romberg table of f on [left, right]: column 1 is the trapezoid rule refined by the midpoints "
     "a + (k - 1/2) h_i, k = 1..2^(i-2), column j is the Richardson extrapolation with 4^(j-1) - 1 (recursive spec `rom`)",
     "integrate_simpson: Err for left >= right and tol < 0; an Ok result is the sum of two-panel Simpson values over panels that tile [left, right] exactly, each of which passed its own local test |S2 - S1| < tol_i; every stack entry stores the samples and the Simpson value of its own panel (the pinned tree restored the wrong saved estimate: fixed); f is only evaluated inside [left, right]",
@@ -355,6 +362,7 @@ NOT_DECIDED = [
 ASSUMPTIONS = [
     "callbacks are pure (FnMut is verified as Fn, rule R7) and modelled by an uninterpreted F",
     "the quadrature tables are opaque (vx_table); their contents are decided by C10",
+    "integrate_core: the first two rows of WEIGHTS_DE have at most 6 entries together (they have 3 + 3), so that the routine's own `num_function_evaluations <= 13` means 'level <= 1' (stated as a precondition on the table shim)",
     "rule R5-map-fold: `.iter().map(G).fold(INIT, H)` is verified as the explicit loop it abbreviates",
     "integrate_simpson: n_max < usize::MAX / 4",
 ]
